@@ -13,7 +13,6 @@ use servlin::internal::write_http_response;
 use servlin::{Event, EventSender, Response};
 use sim_core::with;
 use std::future::Future;
-use std::io::ErrorKind;
 use std::panic::{catch_unwind, AssertUnwindSafe};
 use std::sync::atomic::{AtomicU64, Ordering};
 use std::sync::Arc;
@@ -136,7 +135,7 @@ fn sender_writer(cfg: &RunCfg, oversize_stage: bool, script: Option<Vec<u8>>) ->
     // client disappears after this many accepted bytes (None: stays)
     let client_dies = if !scripted && gen::ratio(1, 5) { Some(60 + gen::below(600) as usize) } else { None };
     if let Some(k) = client_dies {
-        writer.fail_at = Some((k, ErrorKind::BrokenPipe));
+        writer.fail_at = Some((k, gen::write_error_kind()));
     }
     // stalled client: the writer is simply not polled for a while
     let stall = !scripted && gen::ratio(1, 4);
